@@ -1,6 +1,7 @@
 #![allow(dead_code)]
 mod bigint;
 mod c05;
+mod c10;
 mod c11;
 mod c12;
 mod gen;
@@ -44,6 +45,7 @@ fn main() {
         "selftest" => selftest::run(&cfg),
         "c12" => c12::run(&cfg),
         "c11" => c11::run(&cfg),
+        "c10" => c10::run(&cfg),
         "c05" => c05::run(&cfg),
         "c02" => spl::run_c02(&cfg),
         "c03" => spl::run_c03(&cfg),
